@@ -140,6 +140,16 @@ def run_case(ctx, g, rng):
     conf = [OWL_SAMEAS] if preds is None else [preds] if isinstance(preds, str) else preds
     graph = MappingServiceGraph(converter=conv, predicates=preds)
     processor = MappingServiceSPARQLProcessor(graph=graph)
+    if preds is None and rng.random() < 0.5:
+        # another service in the same process, configured by its owner for one more predicate after it was built:
+        # this one is still configured for the default predicate only
+        import rdflib
+
+        neighbour = MappingServiceGraph(converter=api.Converter.from_prefix_map({"zzn": "http://zz.n/"}))
+        qp = getattr(neighbour, "query_predicates", None)
+        if isinstance(qp, set):
+            qp.add(rdflib.URIRef(FOREIGN))
+            S.counters["wl:neighbouring-service-reconfigured"] += 1
     allu = [u for r in recs for u in spec.all_u(r)]
 
     def make_query():
